@@ -257,6 +257,9 @@ func (t *Timer) Stop() bool {
 func AfterFunc(d time.Duration, f func()) *Timer {
 	if s, t := current(); t != nil {
 		th := s.spawn(t, f, "timer", true)
+		s.mu.Lock()
+		s.TimerDurations = append(s.TimerDurations, d)
+		s.mu.Unlock()
 		return &Timer{th: th, s: s}
 	}
 	return &Timer{real: time.AfterFunc(d, f)}
